@@ -504,7 +504,7 @@ Qed.
 
 Lemma step_trans r s o s' x : step H cf r s o = (s', x) -> trans H cf s o s' x.
 Proof.
-  destruct o as [cl uri scopes nonce chal ax | n sub stamp | n | pl f cr code uri ver | pl cr rt scopes | cl | cl | n]; cbn [step].
+  destruct o as [cl uri scopes nonce chal ax | n sub stamp | n | pl f cr code uri ver | pl cr rt scopes | pl cr rt scopes | cl | cl | n]; cbn [step].
   - (* authorize *)
     unfold do_authorize. destruct (find_client cf cl); [|intros [= <- <-]; (apply T_same; exact I)].
     destruct (ro_accepted cf ax && string_in (eff_uri uri ax) (c_redirects c) && negb (is_nil (eff_scopes scopes ax)) && extra_ok ax); intros [= <- <-];
@@ -516,6 +516,15 @@ Proof.
     + apply code_fault_trans.
     + apply code_step_trans.
   - rewrite read_grant_ok, read_field_ok. apply refresh_step_trans.
+  - (* the storage refuses the rotation: an error, nothing changes *)
+    rewrite read_grant_ok, read_field_ok.
+    destruct (match r with Provider => prov_refresh cf s cr rt scopes | Legacy => legacy_refresh cf s cr rt scopes end)
+      as [s0 x0] eqn:E. cbn [snd]. intros [= <- <-].
+    apply (refresh_step_trans H cf pl) in E.
+    inversion E; subst.
+    + destruct x0; try contradiction; apply T_same; solve [assumption | exact I].
+    + apply T_same; exact I.
+    + unfold issue_refresh. cbn [snd]. apply T_same; [apply err_inert | exact I].
   - intros [= <- <-]. apply T_drop.
   - intros [= <- <-]. apply T_dropall.
   - intros [= <- <-]. apply T_revoke.
